@@ -537,3 +537,55 @@ package core
 //@   pure
 //@   ensures keys.mustWait ==> len(result) == 0
 //@   ensures !keys.mustWait ==> result == keys.matched
+
+// ---------------------------------------------------------------------------------------
+// C05: the result does not depend on how the input is chunked.
+// unread(k) = k.buf ++ instream()[inpos():] : the bytes the consumers still have to see, in order.
+
+//@ func (*Keys).extractCursorPos
+//@   trusted regexp-based: returns (last cursor report, the input with every report removed); for input without a report it returns (empty, keys) unchanged (hypothesis of the C05 kernel: no cursor report in flight)
+//@   requires k != nil
+//@   pure
+//@   ensures len(result0) == 0 && result1 == keys
+
+//@ func (*Keys).readInputFiltered
+//@   props C05 C01
+//@   terminates
+//@   requires k != nil && Stdin != nil && !indead() && 0 <= inpos() && inpos() <= len(instream())
+//@   assigns inpos(), indead()
+//@   ensures [chunk] result1 == nil && !indead() ==> len(result0) == chunklen(old(inpos()))
+//@   ensures [fails-only-at-the-end] indead() <==> old(inpos()) >= len(instream())
+//@   ensures [reads-next-bytes] result1 == nil && !indead() ==> len(result0) >= 1 && inpos() == old(inpos()) + len(result0) && inpos() <= len(instream()) && result0 == instream()[old(inpos()):inpos()]
+//@   ensures [error-reads-nothing] indead() ==> inpos() == old(inpos())
+//@   ensures [eof-is-reported] result1 != nil ==> indead() && len(result0) == 0 && iserr(result1, io.EOF)
+//@   ensures [other-errors-swallowed] result1 == nil && indead() ==> len(result0) == 0 && !ineof()
+
+//@ func WaitAvailableKeys
+//@   props C05 C01
+//@   terminates
+//@   requires keys != nil && Stdin != nil && !indead() && 0 <= inpos() && inpos() <= len(instream()) && !keys.reading
+//@   assigns keys.cfg, keys.waiting, keys.cursor, keys.buf, keys.mutex, inpos(), indead()
+//@   ensures [no-byte-lost-or-reordered] cfg == nil ==> keys.buf + instream()[inpos():] == old(keys.buf) + instream()[old(inpos()):]
+//@   ensures [only-appends] cfg == nil ==> len(keys.buf) >= old(len(keys.buf)) && keys.buf[:old(len(keys.buf))] == old(keys.buf)
+//@   ensures [no-read-when-keys-pending] (old(len(keys.buf)) > 0 && !old(keys.mustWait)) || old(len(keys.macroKeys)) > 0 ==> inpos() == old(inpos()) && keys.buf == old(keys.buf)
+//@   loop 1 invariant keys != nil && Stdin != nil && keys.buf == old(keys.buf) && inpos() == old(inpos()) && 0 <= inpos() && inpos() <= len(instream()) && keys.cfg == cfg && !keys.reading && (!indead() || !ineof())
+//@   loop 1 decreases ite(indead(), 0, 1)
+
+// firstw(s): the number of bytes of the first UTF-8 character of s (1 for ASCII)
+//@ spec firstw(s []byte) int
+//@ axiom firstw_ascii(s []byte): len(s) > 0 && s[0] < 128 ==> firstw(s) == 1
+//@ trigger firstw(s)
+//@ axiom firstw_range(s []byte): len(s) > 0 ==> 1 <= firstw(s) && firstw(s) <= 4
+//@ trigger firstw(s)
+//@ spec unread(k *Keys) []byte = k.buf + instream()[inpos():]
+
+//@ func (*Keys).ReadKey
+//@   props C05 C01
+//@   terminates
+//@   requires k != nil && Stdin != nil && !indead() && 0 <= inpos() && inpos() <= len(instream()) && !k.waiting && len(k.macroKeys) == 0
+//@   assigns k.keysOnce, k.reading, k.mutex, k.matched, k.macroKeys, k.buf, inpos(), indead()
+//@   ensures [uses-buffered-keys-first] old(len(k.buf)) > 0 ==> inpos() == old(inpos())
+//@   ensures [consumes-exactly-one-character] old(len(unread(k))) > 0 && old(firstw(unread(k))) <= old(len(unread(k))) ==> unread(k) == old(unread(k))[old(firstw(unread(k))):]
+//@   ensures [returns-that-character] old(len(k.buf)) == 0 && old(inpos()) < len(instream()) && instream()[old(inpos())] < 128 && 0 <= instream()[old(inpos())] ==> result0 == instream()[old(inpos())]
+//@   ensures [returns-buffered-character] old(len(k.buf)) > 0 && old(k.buf[0]) < 128 ==> result0 == old(k.buf[0])
+//@   ensures [abort-when-input-ends] old(inpos()) >= len(instream()) ==> result1
